@@ -8,7 +8,42 @@ NEED = ('reply-after-timeout', 'second-stamp', 'challenge-answer', 'timeout-fire
 def plan(tier):
     return [pcommon.reload_search(tier, 'refuse')] + pcommon.plan_solo(tier) + [pcommon.reload_search(tier)]      # incl. reloads of the service table while the client waits
 
+def reloaded_timeout(run):
+    """The unmodified daemon, real timers: started with a 30 s request timeout (one client arrives and leaves under it), then the file is rewritten with a
+    1 s timeout and SIGUSR1 is sent; a client that completes afterwards and whose query is never answered must get its verdict from the NEW timeout -
+    within 8 s, generously - not from whatever was in force when the first timer was made.  Likewise none -> 1 s."""
+    import signal, time
+    from .. import build, e3, common
+    b = build.build()
+    services = pcommon.G['drone']
+    n = 0
+    for first in (30, 0):
+        mk = lambda t: e3.plain_conf(b, services=services, timeout=t, rules=pcommon.rules_for(services))
+        d = e3.Daemon(mk(first), b=b)
+        try:
+            if not d.wait_banner():
+                raise common.HarnessError('E3 daemon did not start')
+            d.write(b'30 C 10.0.3.1 4030 10.9.9.9 6667\n30 H\n30 D\n')
+            time.sleep(0.2)
+            d.publish(mk(1))
+            d.signal(signal.SIGUSR1)
+            time.sleep(0.7)
+            t0 = time.time()
+            d.write(b'31 C 10.0.3.2 4031 10.9.9.9 6667\n31 N h.example.net\n31 u ident\n31 n nick\n31 U user :Real Name\n')
+            got = d.wait_for(lambda o: b'\nD 31 ' in (b'\n' + o), 8)
+            dt = time.time() - t0
+            rc, out, err = d.close(10)
+        except Exception:
+            d.close(5)
+            raise
+        n += 1
+        if not got:
+            run.violation('C03.stuck-after-timeout', '[E3 real timer] started with timeout %s, reloaded (SIGUSR1) with timeout 1 s: a complete client whose query is never answered had no verdict 8 s later (output: %r)'
+                          % (first or 'none', [l for l in out if ' 31 ' in l][:4]), {'engine': 'E3', 'conf': mk(first), 'first_timeout': first}, dedup='reloaded-timeout')
+    return {'reloaded_timeout_runs': n}
+
+
 def main(tier):
-    return pcommon.run_plan('C03', tier, plan(tier), ('C03.',), NEED, crash_is_violation=True)
+    return pcommon.run_plan('C03', tier, plan(tier), ('C03.',), NEED, crash_is_violation=True, extra_cov=reloaded_timeout)
 
 replay = pcommon.replay
